@@ -25,7 +25,7 @@ class B(BaseException):
 
 PRE = ["yield", "raise", "noyield"]
 HANDLER = ["none", "finally", "swallow", "reraise", "raise_new", "raise_new_from_none", "raise_same_type", "return", "yield_again", "raise_stopasync",
-           "raise_runtime", "raise_runtime_from_none"]
+           "raise_runtime", "raise_runtime_from_none", "raise_runtime_from_exc"]
 AFTER = ["stop", "yield", "raise"]
 BLOCKS = ["normal", "Exception", "BaseException", "StopIteration", "StopAsyncIteration", "RuntimeError", "GeneratorExit", "KeyboardInterrupt"]
 BLOCK_EXC = {"Exception": Exception, "BaseException": BaseException, "StopIteration": StopIteration, "StopAsyncIteration": StopAsyncIteration,
@@ -84,13 +84,15 @@ def make_gen(pre, handler, after, nested=False):
                 elif handler == "return":
                     return
                 elif handler == "yield_again":
-                    yield "again"
+                    yield              # (a bare yield: what comes back from athrow is None, like the result of aclose)
                 elif handler == "raise_stopasync":
                     raise StopAsyncIteration
                 elif handler == "raise_runtime":
                     raise RuntimeError("raised by user code")
                 elif handler == "raise_runtime_from_none":
                     raise RuntimeError("raised by user code") from None
+                elif handler == "raise_runtime_from_exc":
+                    raise RuntimeError("raised by user code") from exc     # explicitly chained to what was thrown in
         if after == "yield":
             yield "after"
         elif after == "raise":
